@@ -38,6 +38,7 @@ class Space:
         BosonOp, FermionOp, pauli, LadderOp, NumberOperator, NOF = _types()
         self.modes = list(modes)
         self.D = D
+        self.subs = {}  # numeric values for free scalar symbols (set by the caller)
         self.kind = []
         for m in self.modes:
             if isinstance(m, BosonOp):
@@ -110,6 +111,8 @@ class Space:
         placeholders = nof._number_operator_placeholders
         for powers, coeff in nof.args[1]:
             coeff = sympy.sympify(coeff)
+            if self.subs:
+                coeff = coeff.subs(self.subs)
             free = coeff.free_symbols
             if free - set(placeholders):
                 raise ValueError(f"coefficient has foreign symbols: {free - set(placeholders)}")
@@ -153,6 +156,8 @@ class Space:
         expr = sympy.sympify(expr)
         if isinstance(expr, NOF):
             return self.nof_matrix(expr)
+        if self.subs and not isinstance(expr, NOF) and expr.free_symbols & set(self.subs):
+            expr = expr.subs(self.subs)
         if not expr.has(BosonOp, LadderOp, FermionOp, pauli.SigmaOpBase, NumberOperator, NOF):
             return complex(expr) * np.eye(self.dim)
         if expr.is_Add:
